@@ -6,9 +6,11 @@
 package h21
 
 import (
+	"crypto/tls"
 	"go.nanomsg.org/mangos/v3"
 	_ "go.nanomsg.org/mangos/v3/transport/ipc"
 	_ "go.nanomsg.org/mangos/v3/transport/tcp"
+	_ "go.nanomsg.org/mangos/v3/transport/tlstcp"
 	"go.nanomsg.org/mangos/v3/zzverif/verif"
 	"go.nanomsg.org/mangos/v3/zzverif/vnet"
 	"go.nanomsg.org/mangos/v3/zzverif/vp"
@@ -22,8 +24,26 @@ func scheme() (url string, key string, ipc bool) {
 	if verif.Param("ipc", 0) == 1 {
 		return "ipc://" + ipcPath, ipcPath, true
 	}
+	if isTLS() {
+		return "tls+tcp://" + addr, addr, false
+	}
 	return "tcp://" + addr, addr, false
 }
+
+// parameter "tls": the real tlstcp transport over the crypto/tls contract stub of vnet
+func isTLS() bool { return verif.Param("tls", 0) == 1 }
+
+var tlsCfg = &tls.Config{Certificates: []tls.Certificate{{}}, ServerName: "verif"}
+
+func epOpts() map[string]interface{} {
+	if isTLS() {
+		return map[string]interface{}{mangos.OptionTLSConfig: tlsCfg}
+	}
+	return nil
+}
+
+func doListen(sock mangos.Socket, url string) error { return sock.ListenOptions(url, epOpts()) }
+func doDial(sock mangos.Socket, url string) error   { return sock.DialOptions(url, epOpts()) }
 
 type hookrec struct {
 	attached, detached int
@@ -44,7 +64,7 @@ func listen(proto string, lab string) (mangos.Socket, *vnet.Listener, *hookrec) 
 		}
 	})
 	url, key, _ := scheme()
-	verif.Assert(sock.Listen(url) == nil, lab+"/listen")
+	verif.Assert(doListen(sock, url) == nil, lab+"/listen")
 	verif.Quiesce()
 	return sock, vnet.N.Listeners[key], h
 }
@@ -128,6 +148,15 @@ func VH21a_listener() {
 		} else {
 			verif.Fail("C13/tcp/remote-addr-option-missing")
 		}
+		if isTLS() {
+			// read-only pipe option: the TLS state of this very connection
+			if v, err := p.GetOption(mangos.OptionTLSConnState); err == nil {
+				st, ok := v.(tls.ConnectionState)
+				verif.Assert(ok && st.HandshakeComplete && st.Version == vnet.TLSVersion && st.ServerName == "remote:c2", "C13/tls/conn-state-describes-the-connection")
+			} else {
+				verif.Fail("C13/tls/conn-state-option-missing")
+			}
+		}
 		if v, err := p.GetOption(mangos.OptionMaxRecvSize); err == nil {
 			verif.Assert(v.(int) == 1024*1024, "C13/tcp/max-recv-size-inherited")
 		} else {
@@ -198,7 +227,7 @@ func VH21b_dialer() {
 	}
 	verif.Assert(sock.SetOption(mangos.OptionDialAsynch, true) == nil, lab+"/asynch")
 	durl, _, _ := scheme()
-	verif.Assert(sock.Dial(durl) == nil, lab+"/dial")
+	verif.Assert(doDial(sock, durl) == nil, lab+"/dial")
 	verif.Quiesce()
 	// attempt 1 done; if it did not attach, a redial must be pending and attempt 2 follows
 	if outcomes[0] != 0 {
@@ -253,7 +282,7 @@ func VH21c_close_queue() {
 		}
 	})
 	qurl, qkey, _ := scheme()
-	verif.Assert(sock.Listen(qurl) == nil, lab+"/listen")
+	verif.Assert(doListen(sock, qurl) == nil, lab+"/listen")
 	verif.Quiesce()
 	L := vnet.N.Listeners[qkey]
 	self := sock.Info().Peer
@@ -311,10 +340,10 @@ func VH21d_busy() {
 	vnet.Install()
 	url, key, ipc := scheme()
 	blocker := vp.New("bus")
-	verif.Assert(blocker.Listen(url) == nil, lab+"/blocker")
+	verif.Assert(doListen(blocker, url) == nil, lab+"/blocker")
 	verif.Quiesce()
 	sock := vp.New("bus")
-	l, err := sock.NewListener(url, nil)
+	l, err := sock.NewListener(url, epOpts())
 	verif.Assert(err == nil, lab+"/new-listener")
 	e1 := l.Listen()
 	verif.Assert(e1 != nil, lab+"/listen-on-busy-address-succeeded")
@@ -348,4 +377,113 @@ func VH21d_busy() {
 	verif.Reach("busy-checked")
 	sock.Close()
 	verif.Quiesce()
+}
+
+// VH21e_tls_config: a TLS listener/dialer whose configuration is missing or
+// incomplete fails with the designated error, stays usable, and works once the
+// configuration is corrected (C12); a failed TLS handshake on the dialing
+// side is one more failed attempt: the dialer redials (C12, C14).
+func VH21e_tls_config() {
+	lab := "C12/tls-config"
+	vnet.Install()
+	url := "tls+tcp://" + addr
+	sock := vp.New("bus")
+	self := sock.Info().Peer
+	switch verif.Choice("side", 2) {
+	case 0:
+		l, err := sock.NewListener(url, nil)
+		verif.Assert(err == nil, lab+"/new-listener")
+		kind := verif.Choice("defect", 2)
+		if kind == 1 {
+			// a configuration without any certificate
+			verif.Assert(l.SetOption(mangos.OptionTLSConfig, &tls.Config{}) == nil, lab+"/set-empty-config")
+		}
+		e1 := l.Listen()
+		if kind == 0 {
+			verif.Assert(e1 == mangos.ErrTLSNoConfig, lab+"/listen-without-config-error-kind")
+		} else {
+			verif.Assert(e1 == mangos.ErrTLSNoCert, lab+"/listen-without-certificate-error-kind")
+		}
+		verif.Assert(len(vnet.N.Listeners) == 0, lab+"/listening-although-listen-failed")
+		// every other call still completes
+		g := verif.Go("poke", func() {
+			l.GetOption(mangos.OptionTLSConfig)
+			l.GetOption(mangos.OptionMaxRecvSize)
+			l.SetOption(mangos.OptionMaxRecvSize, 100)
+			l.Address()
+			sock.GetOption(mangos.OptionMaxRecvSize)
+		})
+		verif.Quiesce()
+		verif.Assert(g.Done(), lab+"/listener-wedged-after-failed-listen")
+		// correct the configuration and retry
+		sg := verif.Go("fix", func() {
+			verif.Assert(l.SetOption(mangos.OptionTLSConfig, tlsCfg) == nil, lab+"/set-config-after-failed-listen")
+		})
+		verif.Quiesce()
+		verif.Assert(sg.Done(), lab+"/set-config-blocks-after-failed-listen")
+		if !sg.Done() {
+			return
+		}
+		v, gerr := l.GetOption(mangos.OptionTLSConfig)
+		verif.Assert(gerr == nil && v == interface{}(tlsCfg), lab+"/get-config-returns-what-was-set")
+		e2 := l.Listen()
+		verif.Assert(e2 == nil, lab+"/listen-retry-after-correction-refused")
+		if e2 == nil {
+			L := vnet.N.Listeners[addr]
+			if L == nil {
+				verif.Fail(lab + "/not-listening-after-retry")
+				return
+			}
+			c := L.Connect("c")
+			c.PeerSend(vnet.SPHeader(self))
+			verif.Quiesce()
+			verif.Assert(!c.Closed, lab+"/connection-refused-after-retry")
+			verif.Reach("listener-corrected")
+		}
+	case 1:
+		attached := 0
+		sock.SetPipeEventHook(func(ev mangos.PipeEvent, p mangos.Pipe) {
+			if ev == mangos.PipeEventAttached {
+				attached++
+			}
+		})
+		n := 0
+		var conns []*vnet.Conn
+		vnet.N.DialOutcome = func(a string) *vnet.Conn {
+			n++
+			c := vnet.NewConn("d")
+			conns = append(conns, c)
+			c.PeerSend(vnet.SPHeader(self))
+			return c
+		}
+		vnet.TLSDialFail = true
+		asynch := verif.Choice("asynch", 2) == 1
+		d, err := sock.NewDialer(url, map[string]interface{}{mangos.OptionTLSConfig: tlsCfg, mangos.OptionDialAsynch: asynch})
+		verif.Assert(err == nil, lab+"/new-dialer")
+		e1 := d.Dial()
+		verif.Quiesce()
+		if asynch {
+			verif.Assert(e1 == nil, lab+"/asynch-dial-reports-the-failure")
+			verif.Assert(verif.PendingTimers() >= 1, lab+"/no-redial-after-failed-tls-handshake")
+			verif.FireTimer()
+		} else {
+			verif.Assert(e1 != nil, lab+"/dial-with-failed-tls-handshake-succeeded")
+			// the failed synchronous dial can be retried on the same dialer
+			e2 := d.Dial()
+			verif.Assert(e2 == nil, lab+"/dial-retry-after-correction-refused")
+			verif.Quiesce()
+		}
+		verif.Assert(n == 2 && attached == 1, lab+"/second-attempt-not-attached")
+		verif.Assert(len(conns) > 0 && conns[0].Closed, "C10/tls/connection-of-failed-tls-handshake-left-open")
+		// the configuration in force reached the TLS layer
+		v, gerr := d.GetOption(mangos.OptionTLSConfig)
+		verif.Assert(gerr == nil && v == interface{}(tlsCfg), lab+"/get-config-returns-what-was-set")
+		verif.Reach("dialer-recovered")
+	}
+	sock.Close()
+	verif.Quiesce()
+	for i := 0; i < 3; i++ {
+		verif.FireTimer()
+	}
+	verif.Assert(verif.LiveGoroutines() == 0, "C10/tls/goroutines-left-after-close")
 }
